@@ -25,11 +25,11 @@ def register(R):
                modifies=["self.hook_depth"], ensures=["self.hook_depth == old(self.hook_depth) + 1"], trusted=T)
     R.contract("rich.console", "Console.pop_render_hook", serves=["C10"], params={"self": "ConsoleL"},
                modifies=["self.hook_depth"], ensures=["self.hook_depth == old(self.hook_depth) - 1"], trusted=T)
-    R.contract("rich.console", "Console.line", serves=["C10"], params={"self": "ConsoleL", "count": "int"}, raises={"Exception": "*"},
+    R.contract("rich.console", "Console.line", serves=["C10"], params={"self": "ConsoleL", "count": "int"}, raises={"BaseException": "*"},
                trusted="prints new lines through the render hooks: may raise whatever the live renderable raises; touches neither hooks, cursor nor streams")
     R.contract("rich.console", "Console.control", serves=["C10"], params={"self": "ConsoleL", "control_codes": "Control"},
                trusted="writes control codes; touches neither hooks, cursor flag nor streams")
-    R.contract("rich.live", "Live.refresh", serves=["C10"], params={"self": "LiveL"}, raises={"Exception": "*"},
+    R.contract("rich.live", "Live.refresh", serves=["C10"], params={"self": "LiveL"}, raises={"BaseException": "*"},
                trusted="renders the live renderable (user code): may raise anything at any render; does not touch hooks, cursor flag, streams or _started")
     R.contract("<opaque>", "Thread.stop", serves=["C10"], params={"self": "opaque:Thread"}, trusted="sets the refresh thread's done event")
     R.contract("<opaque>", "Thread.join", serves=["C10"], params={"self": "opaque:Thread"}, trusted="waits for the refresh thread")
@@ -55,9 +55,9 @@ def register(R):
         "rich.live", "Live.stop", serves=["C10"],
         params={"self": "LiveL"},
         ghost={"ghost_sys_stdout": "opaque:IO", "ghost_sys_stderr": "opaque:IO"},
-        raises={"Exception": "*"},
+        raises={"BaseException": "*"},
         ensures=["implies(old(self._started), " + c + ")" for c in CLEAN] + ["implies(not old(self._started), self.console.hook_depth == old(self.console.hook_depth))"],
-        ensures_raise={"Exception": CLEAN},
+        ensures_raise={"BaseException": CLEAN},
         native=False,
         notes="cleanup holds on the normal path and on every exceptional path out of the try block; the exception propagates",
     )
@@ -100,9 +100,9 @@ def register_progress(R):
     ]
     R.contract(
         "rich.progress", "Progress.stop", serves=["C10"], params={"self": "ProgressL"}, ghost=G,
-        raises={"Exception": "*"},
+        raises={"BaseException": "*"},
         ensures=["implies(old(self._started), " + c + ")" for c in CLEAN] + ["implies(not old(self._started), self.console.hook_depth == old(self.console.hook_depth))"],
-        ensures_raise={"Exception": CLEAN},
+        ensures_raise={"BaseException": CLEAN},
         native=False,
     )
     # start(): either the display is up (hook pushed, cursor hidden, streams saved), or — when the first
@@ -110,13 +110,13 @@ def register_progress(R):
     R.contract(
         "rich.progress", "Progress.start", serves=["C10"], params={"self": "ProgressL"}, ghost=G,
         requires=["self._restore_stdout is None and self._restore_stderr is None", "self.console.cursor_visible"],
-        raises={"Exception": "*"},
+        raises={"BaseException": "*"},
         ensures=[
             "self._started",
             "implies(not old(self._started), self.console.hook_depth == old(self.console.hook_depth) + 1 and not self.console.cursor_visible)",
             "implies(not old(self._started) and self.console.is_terminal and self._redirect_stdout, self._restore_stdout == old(ghost_sys_stdout))",
         ],
-        ensures_raise={"Exception": [
+        ensures_raise={"BaseException": [
             "not self._started",
             "self.console.hook_depth == old(self.console.hook_depth)",
             "self.console.cursor_visible",
